@@ -38,13 +38,24 @@ func (fc SchemaCallbacks) VisitEnum(en *EnumNode) error {
 type EnumNode struct {
 	Schema *schema_j5pb.Enum
 	rootType
+
+	// optionsSource is the node holding the source of Schema.Options, indexed
+	// by the option's position.
+	optionsSource SourceNode
 }
 
 func newEnumNode(source SourceNode, parent parentNode, schema *schema_j5pb.Enum) (*EnumNode, error) {
 	return &EnumNode{
-		Schema:   schema,
-		rootType: newRoot(source, parent, schema.Name),
+		Schema:        schema,
+		rootType:      newRoot(source, parent, schema.Name),
+		optionsSource: source.child("options"),
 	}, nil
+}
+
+// OptionSource returns the source of Schema.Options[idx], falling back to the
+// position of the enum when the option has no source of its own.
+func (en *EnumNode) OptionSource(idx int) SourceNode {
+	return en.optionsSource.child(strconv.Itoa(idx))
 }
 
 type ObjectNode struct {
